@@ -36,9 +36,11 @@ import (
 )
 
 type genCase struct {
-	Slot  string  `json:"slot"`
-	Pre   []int   `json:"pre"`
-	Shape [][]int `json:"shape"`
+	Slot    string  `json:"slot"`
+	Pre     []int   `json:"pre"`
+	Shape   [][]int `json:"shape"`
+	EOL     string  `json:"eol"`
+	Flavour string  `json:"flavour"`
 }
 
 // lineTable gives byte offsets of line starts of a text.
